@@ -1,6 +1,6 @@
 SPECIFICATION Spec
 CONSTANTS
-  N = 3
+  N = 4
   T = 3
   Builder = "new"
   ExcludeTouch = TRUE
